@@ -30,7 +30,8 @@ CONFIG = {
              "1-3 Newick files of 1-3 trees x worker count 1..files+2 x ALL assignments of files to workers x ALL arrival "
              "orders of the partial results x rooting mode (implicit with [&R]/[&U] tokens, implicit without tokens, "
              "forced rooted, forced unrooted), executed through the real TreeProcessor/TreeAnalysisWorker code under a "
-             "harness-owned scheduler. Non-trivial = merge/schedule in which an empty part arrives after a non-empty "
+             "harness-owned scheduler; a schedule may also name workers whose first non-blocking poll of the work queue "
+             "reports it empty (legal for multiprocessing.Queue.get_nowait while items are in transit). Non-trivial = merge/schedule in which an empty part arrives after a non-empty "
              "one, or >= 2 non-empty parts merged in non-original order; distinct = (sample, partition, routes, "
              "operators, order) / (files, workers, assignment, arrival order, mode)."),
     "exhaustive_note": {"quick": "all (assignment, arrival) schedules for 2 files x 1-3 workers x 4 rooting modes",
@@ -258,9 +259,12 @@ class FakeLock(object):
 class Scheduler(object):
     """Stands in for sumtrees.multiprocessing during one parallel_analyze_trees call."""
 
-    def __init__(self, assignment, arrival):
+    def __init__(self, assignment, arrival, giveup=()):
         self.assignment = assignment      # file index -> worker index
         self.arrival = arrival            # permutation of worker indices
+        self.giveup = set(giveup)         # workers whose first NON-BLOCKING poll finds the queue (still) empty: items put
+        self.polled = set()               # on a multiprocessing.Queue travel through a feeder thread and a pipe, so
+        self.sentinels = 0                # get_nowait() may legitimately raise Empty although items were put
         self.workers = []
         self.files = []
         self.results = {}
@@ -272,15 +276,42 @@ class Scheduler(object):
 
         class WorkQueue(object):
             def put(self, f):
-                sched.files.append(f)
+                if f is None:
+                    sched.sentinels += 1   # end-of-work marker
+                else:
+                    sched.files.append(f)
 
-            def get_nowait(self):
+            def _next(self):
                 k = sched.current
                 for idx, f in enumerate(sched.files):
                     if f is not None and sched.assignment[idx] == k:
                         sched.files[idx] = None
                         return f
-                raise _queue.Empty()
+                return None
+
+            def get_nowait(self):
+                k = sched.current
+                if k in sched.giveup and k not in sched.polled:
+                    sched.polled.add(k)
+                    raise _queue.Empty()
+                sched.polled.add(k)
+                f = self._next()
+                if f is None:
+                    raise _queue.Empty()
+                return f
+
+            def get(self, block=True, timeout=None):
+                if not block:
+                    return self.get_nowait()
+                f = self._next()
+                if f is not None:
+                    return f
+                if sched.sentinels > 0:
+                    sched.sentinels -= 1
+                    return None
+                if timeout is not None:
+                    raise _queue.Empty()
+                raise runner.HarnessError("a worker would block forever on the work queue (no task, no end-of-work marker)")
 
         class ResultsQueue(object):
             def put(self, r):
@@ -315,9 +346,9 @@ class Scheduler(object):
         return multiprocessing.Process
 
 
-def run_parallel(ctx, tp, files, ns, nworkers, assignment, arrival):
+def run_parallel(ctx, tp, files, ns, nworkers, assignment, arrival, giveup=()):
     from dendropy.application import sumtrees
-    sched = Scheduler(assignment, arrival)
+    sched = Scheduler(assignment, arrival, giveup)
     for name in ("TreeAnalysisWorker", "TreeProcessor", "multiprocessing"):
         if not hasattr(sumtrees, name):
             raise runner.HarnessError("sumtrees.%s not found (trusted-base name changed)" % name)
@@ -344,7 +375,7 @@ def sched_cases(draw, max_files, max_workers_extra):
     W = draw(st.integers(1, F + max_workers_extra))
     return {"sample": s, "cuts": cuts, "W": W, "assignment": [draw(st.integers(0, W - 1)) for _ in range(F)],
             "arrival": list(draw(st.permutations(list(range(W))))), "mode": draw(st.sampled_from(MODES)),
-            "rooted_tokens": draw(st.booleans())}
+            "rooted_tokens": draw(st.booleans()), "giveup": sorted(draw(st.sets(st.integers(0, W - 1), max_size=W)))}
 
 
 def check_schedule(ctx, case):
@@ -382,10 +413,10 @@ def check_schedule(ctx, case):
         ns1 = dendropy.TaxonNamespace(labels)
         R = mk().serial_analyze_trees(tree_sources=files, schema="newick", taxon_namespace=ns1)
         ns2 = dendropy.TaxonNamespace(labels)
-        tag = lambda: "mode=%s tokens_rooted=%r files=%r workers=%d assignment=%r arrival=%r trees=%s" % (
-            mode, token_rooted, groups, W, case["assignment"], case["arrival"], [rt.canon() for rt in rts])
+        tag = lambda: "mode=%s tokens_rooted=%r files=%r workers=%d assignment=%r arrival=%r early_empty_poll=%r trees=%s" % (
+            mode, token_rooted, groups, W, case["assignment"], case["arrival"], case.get("giveup", []), [rt.canon() for rt in rts])
         try:
-            M = run_parallel(ctx, mk(), files, ns2, W, case["assignment"], case["arrival"])
+            M = run_parallel(ctx, mk(), files, ns2, W, case["assignment"], case["arrival"], case.get("giveup", ()))
         except runner.HarnessError:
             raise
         except Exception as e:
@@ -406,6 +437,8 @@ def check_schedule(ctx, case):
         ctx.cls("B:has_idle_worker")
     if idle_after_busy:
         ctx.cls("B:idle_result_after_nonempty_result")
+    if case.get("giveup"):
+        ctx.cls("B:worker_whose_first_nonblocking_poll_is_empty")
     ctx.cls("B:mode:" + mode)
     if idle_after_busy or (len(busy) >= 2 and [w for w in case["arrival"] if w in busy] != sorted(busy)):
         ctx.nontrivial(["B", case["sample"], case["cuts"], W, case["assignment"], case["arrival"], mode, token_rooted])
@@ -434,8 +467,10 @@ def exhaustive_items(tier):
                 for arrival in itertools.permutations(range(W)):
                     for mode in MODES:
                         for tok in ((True, False) if mode == "implicit_tokens" else (True,)):
-                            items.append({"sample": FIXED_SAMPLE, "cuts": cuts, "W": W, "assignment": list(assignment),
-                                          "arrival": list(arrival), "mode": mode, "rooted_tokens": tok})
+                            gsets = [()] if mode != "implicit_tokens" else [g for r in range(W + 1) for g in itertools.combinations(range(W), r)]
+                            for giveup in gsets:
+                                items.append({"sample": FIXED_SAMPLE, "cuts": cuts, "W": W, "assignment": list(assignment),
+                                              "arrival": list(arrival), "mode": mode, "rooted_tokens": tok, "giveup": list(giveup)})
     return items
 
 
